@@ -369,6 +369,7 @@ static void finish_case(void);
 
 static int g_in_sinkcalls;
 static int g_nchild_before_start;
+static int g_watchdogs;
 static int g_faults_start_only;
 static char *g_sinkbuf;
 static void on_hang(const char *what)
@@ -1881,7 +1882,16 @@ int main(int argc, char **argv)
         putchar('\n');
       }
     }
-    if (status == -1) printf("END %s watchdog\n", id);
+    if (status == -1) {
+      printf("END %s watchdog\n", id);
+      if (++g_watchdogs >= 4) {
+        // something is systematically stuck in real time: do not burn 30 s per remaining case
+        printf("ABORT watchdog-limit\n");
+        fflush(stdout);
+        rm_rf(g_cdir);
+        break;
+      }
+    }
     else if (WIFSIGNALED(status)) printf("END %s signal %d\n", id, WTERMSIG(status));
     else printf("END %s exit %d\n", id, WEXITSTATUS(status));
     fflush(stdout);
